@@ -35,8 +35,7 @@ pub fn spec() -> HistSpec {
         excluder,
         fixed_cases,
         label_floors: vec![("wrongtype-hit", 100), ("boundary-index", 100), ("key-emptied", 100), ("negative-count", 50), ("random-pick", 50), ("algebra-missing-or-wrongtype", 50)],
-        pre_phase: None,
-        pre_replay: None,
         assumptions: vec!["reference model written from the Redis command documentation (DESIGN.md Appendix B)", "error replies compare equal regardless of wording"],
+        ..Default::default()
     }
 }
